@@ -17,8 +17,9 @@ Three kinds of expectation:
              chibicc accepts: impl = model only
    reject  - not a literal of the grammar: impl must reject (integers: must not be an integer
              constant), model must reject
-A spec/impl disagreement matched by the proved predicate `known_bad` (IntScanProofs.v: the
-0x0x.. family) is reported under "known_findings", not under "impl_vs_spec".
+The two findings of the first delivery (0x0x1 accepted, 'a\\'' rejected) were repaired in /repo (commits
+d1a8518, 6181ddd); their witnesses are ordinary cases now and "known_findings" stays empty (the key
+is kept for callers).
 """
 import os, sys, re, json, random, subprocess, tempfile, shutil, time
 
@@ -211,8 +212,9 @@ def gen_cases(rng, n):
             C.add_chr(pn, raw=raw, expect='lenient')
         for raw in [b'a', b'\\n', b'\\xg\'', b'\\x\'', b'ab']:
             C.add_chr(pn, raw=raw, expect='reject')
-        # valid (two elements, the second an escaped quote) but cut short by chibicc: known finding
-        C.add_chr(pn, raw=b"a\\''", expect='known_multichar')
+        # several elements, one an escaped quote (value implementation-defined: the first element)
+        for raw in [b"a\\''", b"\\'\\''", b"ab\\\\'", b"a\\'b'"]:
+            C.add_chr(pn, raw=raw, expect='lenient')
     # --- integer constants
     vals = [0, 1, 7, 8, 9, 10, 255, 2**31 - 1, 2**31, 2**31 + 1, 2**32 - 1, 2**32, 2**32 + 1, 2**63 - 1, 2**63, 2**63 + 1,
             2**64 - 1, 2**64, 2**64 + 1, 2**70 + 12345]
@@ -245,6 +247,11 @@ def gen_cases(rng, n):
               '0x0xg', '0x0x1u', '0x0x1lL', '0b0b1', '1e5', '1.5', '0x1p3', '1_000', '0o17', '1x', '00x1', '0xx1', '0bb1', '1ull1',
               '0x0x1ULL', '0x0xfffffffffffffffff', '1u2', '0u0', '0xu', '0bu']:
         C.add_int(t)
+    # a hexadecimal constant whose digits begin like a binary prefix is valid (0x0b1 = 177)
+    C.add_int('0x0b1', ('BHex false', '0b1', ''))
+    C.add_int('0X0B1u', ('BHex true', '0B1', 'u'))
+    C.add_int('0x0', ('BHex false', '0', ''))
+    C.add_int('0b0L', ('BBin false', '0', 'L'))
     # --- random structured cases
     for _ in range(n):
         r = rng.random()
@@ -304,12 +311,8 @@ Definition chr_case (p : cprefix) (it : sitem) (src tail : list N) : list (list 
     m_chr p (src ++ tail);
     scty_code (char_const_ty p) :: match spec_char_value p (resolve_sitem it) with Some v => [1%Z; v] | None => [0%Z] end ].
 Definition chr_raw (p : cprefix) (buf : list N) : list (list Z) := [ []; m_chr p buf; [] ].
-(* the constant and then the token that starts at the quote left behind it *)
-Definition chr_raw2 (p : cprefix) (buf : list N) : list (list Z) :=
-  [ []; enc_res (fun r => [cty_code (snd (fst r)); zn (length (snd r)); num_value (snd (fst r)) (fst (fst r))])
-          (bind (cuc buf) (fun b => bind (char_token (model_cprefix p) b) (fun r => char_token ChrNone (tl (snd r))))); [] ].
 Definition int_case (s : list N) (k : option iconst) : list (list Z) :=
-  [ [match k with Some k => zb (valid_iconst k && list_eqb (spell_iconst k) s) | None => 2%Z end; zb (known_bad s)];
+  [ [match k with Some k => zb (valid_iconst k && list_eqb (spell_iconst k) s) | None => 2%Z end; 0%Z];
     match convert_pp_int s with Some (v, t) => [1%Z; lty_code t; Z.of_N v] | None => [0%Z] end;
     match recognise_iconst s with
     | Some k => 1%Z :: Z.of_N (iconst_value k) ::
@@ -339,7 +342,7 @@ def coq_terms(C, reject_files):
         if c['item'] is not None:
             terms.append('chr_case %s %s %s [39; 41]' % (c['prefix'], item_coq(c['item']), nlist(c['body'])))
         else:
-            terms.append('%s %s %s' % ('chr_raw2' if c['expect'] == 'known_multichar' else 'chr_raw', c['prefix'], nlist(c['after'])))
+            terms.append('chr_raw %s %s' % (c['prefix'], nlist(c['after'])))
     for c in C.int:
         k = c['k']
         ks = 'None' if k is None else '(Some {| ic_base := %s; ic_digits := %s; ic_suffix := %s |})' % (k[0], nlist(k[1].encode()), sfx_coq(k[2]))
@@ -475,7 +478,6 @@ def canon_spec(c, fl, s):
         return ['ok', sz, sg] + s[1:]
     if c['kind'] == 'chr':
         if c['expect'] == 'reject': return 'rejected'
-        if c['expect'] == 'known_multichar': return 'valid (several elements: value implementation-defined)'
         if c['item'] is None or not fl[1] or s[1] == 0: return None
         sz, sg = CHR_TY[s[0]]
         return ['ok', sz, sg, s[2]]
@@ -501,7 +503,7 @@ def run(src_dir, seed=1, n=300, verif_dir=None):
         # the text the scanners see behind the opening quote of a raw (reject / lenient) case
         for idx, c in enumerate(allc):
             if c['kind'] != 'int' and (c.get('items') is None and c.get('item') is None):
-                if c['expect'] in ('reject', 'known_multichar'):
+                if c['expect'] == 'reject':
                     whole, L = reject_source(c), lit_text(c)
                     off = whole.index(L) + len(L) - len(c['body'])
                     c['after'] = list(whole[off:])
@@ -511,7 +513,7 @@ def run(src_dir, seed=1, n=300, verif_dir=None):
         impl, batch = {}, []
         for i, c in enumerate(allc):
             fl, m, s = coq[i]
-            if c['kind'] != 'int' and c.get('expect') in ('reject', 'known_multichar'):
+            if c['kind'] != 'int' and c.get('expect') == 'reject':
                 src = os.path.join(wd, 'rej%d.c' % i)
                 open(src, 'wb').write(reject_source(c))
                 impl[i] = 'rejected' if sh([chibicc, '-S', '-o', '/dev/null', src]).returncode != 0 else 'accepted'
@@ -534,8 +536,7 @@ def run(src_dir, seed=1, n=300, verif_dir=None):
                 if re.search(r'[uUlL]|^0[xXbB]|^0\d', c['text']) or isinstance(cs, str): nontrivial.add(('i', c['text']))
             else:
                 its = c.get('items') if c['kind'] == 'str' else ([c['item']] if c.get('item') is not None else None)
-                cat = '%s_%s_%s' % (c['kind'], c['prefix'], 'valid' if isinstance(cs, list) else 'lenient' if cs is None else
-                                    'known_finding' if c.get('expect') == 'known_multichar' else 'reject')
+                cat = '%s_%s_%s' % (c['kind'], c['prefix'], 'valid' if isinstance(cs, list) else 'lenient' if cs is None else 'reject')
                 if its is not None:
                     if fl[0] == 0 or fl[1] == 0: gen_problems.append(text)
                     for it in its: dist['elem_' + feature(it)] = dist.get('elem_' + feature(it), 0) + 1
@@ -544,14 +545,8 @@ def run(src_dir, seed=1, n=300, verif_dir=None):
                     nontrivial.add((c['kind'], c['prefix'], c['body']))
             dist[cat] = dist.get(cat, 0) + 1
             rec = dict(case=text, kind=c['kind'])
-            if c.get('expect') == 'known_multichar':
-                if ci == 'rejected':
-                    known.append(dict(case=text, impl=ci, spec=cs, finding='C11-char-multichar-escaped-quote (proved real: C11_char_multichar_escaped_quote_refuted)'))
-            elif cs is not None and not same(ci, cs):
-                if c['kind'] == 'int' and fl[1] == 1:
-                    known.append(dict(case=text, impl=ci, spec=cs, finding='C11-int-double-hex-prefix (known_bad, proved real: C11_int_constant_iff_refuted)'))
-                else:
-                    ivs.append(dict(rec, impl=ci, spec=cs))
+            if cs is not None and not same(ci, cs):
+                ivs.append(dict(rec, impl=ci, spec=cs))
             if not same(ci, cm):
                 ivm.append(dict(rec, impl=ci, model=cm))
             if len(samples) < 12 and i % max(1, len(allc) // 12) == 0:
